@@ -6,6 +6,8 @@
 #include <stdlib.h>
 #include <string.h>
 #include <uuid/uuid.h>
+#include <pthread.h>
+#include <iomanip>
 #include <memory>
 #include <sstream>
 #include <string>
@@ -85,6 +87,104 @@ static string libc_s(F f, const string &t, int base) {
   int e = errno;
   return "lv=" + sdec(v) + ";le=" + (e == ERANGE ? "1" : (e == 0 ? "0" : "other")) + ";lend=" +
       udec(end - t.c_str());
+}
+
+// ---- operator<< on a stream that already carries format state (op "strm") ------------------
+static void prep(std::ostream *o, int adj, int base, int fill) {
+  if (adj == 1) *o << std::left; else if (adj == 2) *o << std::right; else if (adj == 3) *o << std::internal;
+  if (base == 16) *o << std::hex;
+  *o << std::setfill(static_cast<char>(fill));
+}
+template <typename V>
+static string strm(const V &v, int adj, int base, int fill, int w, unsigned long long n, bool with_text) {
+  std::ostringstream o, ref;
+  prep(&o, adj, base, fill);
+  prep(&ref, adj, base, fill);
+  o << std::setw(w) << v << '|' << n << '|' << v << '|' << std::setw(12) << n;
+  // the same sequence with the value's ToString() text inserted as a plain string
+  ref << std::setw(w) << v.ToString() << '|' << n << '|' << v.ToString() << '|' << std::setw(12) << n;
+  string r = string("pure=") + (o.str() == ref.str() ? "1" : "0");
+  if (with_text) r += ";s=" + hx(o.str());
+  return r;
+}
+
+// ---- printers called from several threads at once (op "thr") ----------------------------------
+struct ThrArg { unsigned id; unsigned n; unsigned long long seed; unsigned long mis; volatile int *go; };
+static unsigned long long lcg(unsigned long long *s) {
+  *s = *s * 6364136223846793005ULL + 1442695040888963407ULL;
+  return *s;
+}
+static void *thr_main(void *p) {
+  ThrArg *a = static_cast<ThrArg*>(p);
+  unsigned long long s = a->seed + 0x9e3779b97f4a7c15ULL * (a->id + 1);
+  while (!*a->go) {}
+  unsigned long mis = 0;
+  char buf[64];
+  for (unsigned i = 0; i < a->n; i++) {
+    unsigned long long r = lcg(&s);
+    // vary the number of digits
+    unsigned long long v = r >> (lcg(&s) % 64);
+    {  // IntToString(uint64_t) -> strict StringToInt, and the text itself
+      string t = ola::strings::IntToString(static_cast<uint64_t>(v));
+      snprintf(buf, sizeof(buf), "%llu", v);
+      uint64_t back = 0;
+      if (t != buf || !ola::StringToInt(t, &back, true) || back != v) mis++;
+    }
+    {  // IntToString(int64_t)
+      long long sv = static_cast<long long>(v >> 1);
+      if (r & 1) sv = -sv;
+      string t = ola::strings::IntToString(static_cast<int64_t>(sv));
+      snprintf(buf, sizeof(buf), "%lld", sv);
+      int64_t back = 0;
+      if (t != buf || !ola::StringToInt(t, &back, true) || back != sv) mis++;
+    }
+    {  // ToHex(uint32_t)
+      uint32_t hv = static_cast<uint32_t>(v);
+      std::ostringstream o;
+      o << ola::strings::ToHex(hv, false);
+      snprintf(buf, sizeof(buf), "%08x", hv);
+      uint32_t back = 0;
+      if (o.str() != buf || !ola::HexStringToInt(o.str(), &back) || back != hv) mis++;
+    }
+    {  // UID::ToString
+      ola::rdm::UID u(static_cast<uint64_t>(r & 0xffffffffffffULL));
+      string t = u.ToString();
+      snprintf(buf, sizeof(buf), "%04x:%08x", u.ManufacturerId(), u.DeviceId());
+      ola::rdm::UID *b = ola::rdm::UID::FromString(t);
+      if (t != buf || !b || !(*b == u)) mis++;
+      delete b;
+    }
+    {  // IPV4Address::ToString
+      uint32_t av = static_cast<uint32_t>(r >> 16);
+      ola::network::IPV4Address ip(av);
+      string t = ip.ToString();
+      const uint8_t *q = reinterpret_cast<const uint8_t*>(&av);
+      snprintf(buf, sizeof(buf), "%u.%u.%u.%u", q[0], q[1], q[2], q[3]);
+      ola::network::IPV4Address back;
+      if (t != buf || !ola::network::IPV4Address::FromString(t, &back) || !(back == ip)) mis++;
+    }
+  }
+  a->mis = mis;
+  return NULL;
+}
+static string run_threads(unsigned nthreads, unsigned n, unsigned long long seed) {
+  if (nthreads > 16) nthreads = 16;
+  volatile int go = 0;
+  ThrArg args[16];
+  pthread_t th[16];
+  unsigned started = 0;
+  for (unsigned i = 0; i < nthreads; i++) {
+    args[i].id = i; args[i].n = n; args[i].seed = seed; args[i].mis = 0; args[i].go = &go;
+    if (pthread_create(&th[i], NULL, thr_main, &args[i]) != 0) break;
+    started++;
+  }
+  go = 1;
+  unsigned long mis = 0;
+  for (unsigned i = 0; i < started; i++) { pthread_join(th[i], NULL); mis += args[i].mis; }
+  // a thread that could not be started is environment trouble, not a property failure: its
+  // conversions are run here so the count is still complete
+  for (unsigned i = started; i < nthreads; i++) { thr_main(&args[i]); mis += args[i].mis; }
+  return "mis=" + udec(mis) + ";cnt=" + udec(5ULL * nthreads * n);
 }
 
 static string handle(const string &p) {
@@ -341,6 +441,25 @@ static string handle(const string &p) {
   if (op == "strtoll") return libc_s(strtoll, text_of(a[2]), vh::num(a[1]));
   if (op == "strtol") return libc_s(strtol, text_of(a[2]), vh::num(a[1]));
   if (op == "atoi") return "lv=" + sdec(atoi(text_of(a[1]).c_str()));
+  if (op == "strm") {   // strm <type> <adj> <base> <fill> <w> <n> <value...>
+    const string &ty = a[1];
+    int adj = vh::num(a[2]), base = vh::num(a[3]), fill = vh::num(a[4]), w = vh::num(a[5]);
+    unsigned long long n = vh::num(a[6]);
+    vector<uint8_t> d = ty == "uid" ? vector<uint8_t>() : vh::unhex(a[7]);
+    if (ty == "uid") return strm(ola::rdm::UID(static_cast<uint64_t>(vh::num(a[7]))), adj, base, fill, w, n, true);
+    if (ty == "mac") return strm(ola::network::MACAddress(d.data()), adj, base, fill, w, n, true);
+    if (ty == "cid") return strm(ola::acn::CID::FromData(d.data()), adj, base, fill, w, n, true);
+    if (ty == "dmx") return strm(ola::DmxBuffer(d.data(), d.size()), adj, base, fill, w, n, true);
+    if (ty == "ip6") return strm(ola::network::IPV6Address(d.data()), adj, base, fill, w, n, false);
+    uint32_t v4;
+    memcpy(&v4, d.data(), 4);
+    if (ty == "ip4") return strm(ola::network::IPV4Address(v4), adj, base, fill, w, n, true);
+    if (ty == "sa")
+      return strm(ola::network::IPV4SocketAddress(ola::network::IPV4Address(v4),
+                                                  static_cast<uint16_t>(vh::num(a[8]))), adj, base, fill, w, n, true);
+    return "bad-type";
+  }
+  if (op == "thr") return run_threads(vh::num(a[1]), vh::num(a[2]), vh::num(a[3]));
   if (op == "split") {
     vector<string> tokens;
     ola::StringSplit(text_of(a[2]), &tokens, text_of(a[1]));
